@@ -399,6 +399,234 @@ class Fn:
         return self.dbg.get(l, "_%d" % l)
 
 
+# ---------------------------------------------------------------------------
+# Normalisation: helpers that did not exist on the reference tree are inlined into their callers.
+#
+# The rules were confirmed against the functions of the reference tree (lyverif/pinned_fns.json).
+# A later refactoring that extracts `fn helper(..)` out of one of them moves the facts a rule
+# looks for (a push, a kind test, an error call) into a function no rule knows. Inlining is
+# semantics preserving, so judging the inlined body is judging the same program; the helper is
+# then dropped from the fact base (it is covered at every call site). Kept as ordinary functions:
+# recursive helpers, helpers that are never called directly or whose address is taken, trait
+# methods. Calls through a `fn` pointer parameter are resolved when inlining exposes the
+# (non-capturing) closure that was passed.
+_PINNED = None
+
+
+def pinned_fns():
+    global _PINNED
+    if _PINNED is None:
+        try:
+            with open(os.path.join(os.path.dirname(__file__), "pinned_fns.json")) as f:
+                _PINNED = set(json.load(f)["fns"])
+        except OSError:
+            _PINNED = set()
+    return _PINNED
+
+
+def _renum(x, lo, zero=None):
+    """deep copy of a MIR JSON fragment with every local shifted by lo (the callee's return place,
+    local 0, becomes `zero` when given: the caller's destination local)"""
+    def m(l):
+        return zero if (l == 0 and zero is not None) else l + lo
+    if isinstance(x, dict):
+        if "l" in x and "p" in x and isinstance(x["l"], int):
+            return {"l": m(x["l"]), "p": [([e[0], m(e[1])] + list(e[2:])) if e[0] == "index" else list(e) for e in x["p"]]}
+        return {k: _renum(v, lo, zero) for k, v in x.items()}
+    if isinstance(x, list):
+        return [_renum(v, lo, zero) for v in x]
+    return x
+
+
+def _splice(blocks, locals_, dbg, bi, callee, args, self_operand=None):
+    """replace the call terminating blocks[bi] by the body of callee (appended, renumbered).
+    args: operands for callee locals 1..; returns the index range of the appended blocks."""
+    t = blocks[bi]["t"]
+    lo, bo = len(locals_), len(blocks)
+    locals_.extend(callee.locals)
+    for k, v in callee.dbg.items():
+        dbg[k + lo] = v
+    sp = t.get("sp", "")
+    for i, a in enumerate(args):
+        blocks[bi]["s"].append({"d": {"l": lo + 1 + i, "p": []}, "r": {"k": "use", "a": a}, "sp": sp, "inl": callee.path})
+    cont = t["to"]
+    zero = t["dest"]["l"] if not t["dest"]["p"] else None
+    for gb in callee.blocks:
+        nb = {"s": [], "t": None}
+        for st in gb["s"]:
+            ns = _renum(st, lo, zero)
+            nb["s"].append(ns)
+        gt = gb["t"]
+        if gt["k"] == "return":
+            if zero is None:
+                nb["s"].append({"d": _renum_dest(t["dest"]), "r": {"k": "use", "a": {"move": {"l": lo, "p": []}}}, "sp": sp, "inl": callee.path})
+            nb["t"] = {"k": "goto", "to": cont} if cont is not None and cont >= 0 else {"k": "unreachable"}
+        else:
+            nt = _renum(gt, lo, zero)
+            if nt["k"] == "call" and nt["f"].startswith("<indirect") and isinstance(nt.get("g"), str):
+                try:
+                    nt["g"] = json.dumps(_renum(json.loads(gt["g"]), lo, zero))
+                except ValueError:
+                    pass
+            if "to" in nt and isinstance(nt["to"], int) and nt["to"] >= 0:
+                nt["to"] += bo
+            if nt["k"] == "switch":
+                nt["targets"] = [[v, d + bo] for v, d in nt["targets"]]
+                nt["otherwise"] += bo
+            nb["t"] = nt
+        blocks.append(nb)
+    blocks[bi]["t"] = {"k": "goto", "to": bo}
+    return range(bo, len(blocks))
+
+
+def _renum_dest(d):
+    return {"l": d["l"], "p": [list(e) for e in d["p"]]}
+
+
+def inline_new_helpers(F):
+    pinned = pinned_fns()
+    if not pinned:
+        return
+    new = {}
+    for path, v in F.fns.items():
+        fn = v[0]
+        if len(v) == 1 and fn.kind in ("Fn", "AssocFn") and path not in pinned and " as " not in path.split("::")[0] and not path.startswith("<"):
+            new[path] = fn
+    if not new:
+        return
+    # direct callers, address-taken check
+    called = collections.defaultdict(int)
+    taken = set()
+    names = {lastseg(p): p for p in new}
+    for fn in F.all_fns():
+        for b in fn.blocks:
+            t = b["t"]
+            if t["k"] == "call" and t["f"] in new and not t.get("dyn"):
+                called[t["f"]] += 1
+        txt = None
+        for b in fn.blocks:
+            for st in b["s"]:
+                r = st["r"]
+                for o in ([r.get("a"), r.get("b")] + list(r.get("ops", []))):
+                    if isinstance(o, dict) and o.get("const") and "fn" in (o.get("ty") or "").lower()[:12]:
+                        for n, p_ in names.items():
+                            if n in (o.get("dbg") or ""):
+                                taken.add(p_)
+            t = b["t"]
+            if t["k"] == "call":
+                for o in t["args"]:
+                    if isinstance(o, dict) and o.get("const"):
+                        for n, p_ in names.items():
+                            if ("::" + n) in (o.get("dbg") or ""):
+                                taken.add(p_)
+    # recursion among new helpers
+    graph = {p: {b["t"]["f"] for b in fn.blocks if b["t"]["k"] == "call" and b["t"]["f"] in new} for p, fn in new.items()}
+
+    def reaches_self(p):
+        seen, st = set(), list(graph[p])
+        while st:
+            x = st.pop()
+            if x == p:
+                return True
+            if x in seen:
+                continue
+            seen.add(x)
+            st.extend(graph.get(x, ()))
+        return False
+    inl = {p for p in new if called[p] > 0 and p not in taken and not reaches_self(p) and len(new[p].blocks) <= 600}
+    if not inl:
+        return
+    # bottom-up order
+    order, done = [], set()
+
+    def visit(p):
+        if p in done:
+            return
+        done.add(p)
+        for q in graph[p]:
+            if q in inl:
+                visit(q)
+        order.append(p)
+    for p in sorted(inl):
+        visit(p)
+    rebuilt = {}
+
+    def expand(fn):
+        """fn with every call to an inlinable helper spliced in (helpers are already expanded)"""
+        if not any(b["t"]["k"] == "call" and b["t"]["f"] in inl and not b["t"].get("dyn") for b in fn.blocks):
+            return None
+        blocks = [{"s": list(b["s"]), "t": b["t"]} for b in fn.blocks]
+        locals_ = list(fn.locals)
+        dbg = dict(fn.dbg)
+        got = []
+        spliced = set()
+        bi = 0
+        while bi < len(blocks) and len(blocks) < 6000:
+            t = blocks[bi]["t"]
+            if t["k"] == "call" and t["f"] in inl and not t.get("dyn"):
+                g = rebuilt.get(t["f"]) or new[t["f"]]
+                if len(t["args"]) == g.argc:
+                    rng = _splice(blocks, locals_, dbg, bi, g, t["args"])
+                    spliced |= set(rng)
+                    got.append(g.path)
+                    got.extend(getattr(g, "inlined", ()))
+            bi += 1
+        d = dict(fn.d)
+        d["blocks"], d["locals"], d["dbg"] = blocks, locals_, {str(k): v for k, v in dbg.items()}
+        nf = Fn(d, fn.crate)
+        nf.inlined = tuple(dict.fromkeys(got))
+        nf.spliced = spliced
+        _resolve_fnptr_calls(F, nf)
+        return nf
+    for p in order:
+        nf = expand(new[p])
+        if nf is not None:
+            rebuilt[p] = nf
+    for path, v in list(F.fns.items()):
+        if path in inl:
+            continue
+        for i, fn in enumerate(v):
+            nf = expand(fn)
+            if nf is not None:
+                v[i] = nf
+                F.by_name[fn.name] = [nf if x is fn else x for x in F.by_name[fn.name]]
+    for p in inl:
+        fn = F.fns.pop(p)[0]
+        F.by_name[fn.name] = [x for x in F.by_name[fn.name] if x is not fn]
+        F.inlined[p] = True
+
+
+def _resolve_fnptr_calls(F, fn):
+    """inside spliced regions, a call through a `fn` pointer whose value is a non-capturing closure
+    built in the caller (`helper(|a, b| a / b)`) is replaced by that closure's body"""
+    for _ in range(8):
+        hit = False
+        for bi in sorted(getattr(fn, "spliced", ())):
+            t = fn.blocks[bi]["t"]
+            if t["k"] != "call" or not t["f"].startswith("<indirect") or not isinstance(t.get("g"), str):
+                continue
+            try:
+                callee_op = json.loads(t["g"])
+            except ValueError:
+                continue
+            r = fn.root_of(callee_op)
+            cpath = None
+            if r[0] == "rvalue" and r[1]["k"] == "agg" and r[1]["adt"].startswith("closure:") and not r[1]["ops"]:
+                cpath = r[1]["adt"][len("closure:"):]
+            c = F.fn(cpath) if cpath else None
+            if c is None or c.argc != len(t["args"]) + 1:
+                continue
+            blocks, locals_, dbg = fn.blocks, fn.locals, fn.dbg
+            unit = {"const": True, "ty": "closure", "dbg": cpath}
+            rng = _splice(blocks, locals_, dbg, bi, c, [unit] + list(t["args"]))
+            fn.spliced |= set(rng)
+            fn._succ = fn._pred = fn._dom = fn._pdom = fn._reach = fn._defs = None
+            hit = True
+            break
+        if not hit:
+            return
+
+
 class Facts:
     def __init__(self, d, cfg):
         self.cfg = cfg
@@ -424,6 +652,9 @@ class Facts:
                 self.by_name[fn.name].append(fn)
         self._callers = None
         self._impl_fn_index = None
+        self.inlined = {}
+        if not os.environ.get("LAYTHE_NO_INLINE"):
+            inline_new_helpers(self)
 
     def all_fns(self):
         for v in self.fns.values():
@@ -472,8 +703,8 @@ class Facts:
         return t if t in self.adts else None
 
     def closures_of(self, fn):
-        pre = fn.path + "::{closure"
-        return [f for f in self.all_fns() if f.path.startswith(pre)]
+        pres = [fn.path + "::{closure"] + [p + "::{closure" for p in getattr(fn, "inlined", ())]
+        return [f for f in self.all_fns() if any(f.path.startswith(pre) for pre in pres)]
 
 
 class Syn:
